@@ -324,59 +324,68 @@ func taskExecutorScenarios() []*sched.Scenario {
 			vrt.Fail("not-delivered", "the replacing task did not run")
 		}
 	})
-	add("taskexecutor/callback-reschedules-own-id", 1, false, func() {
-		te := timed.NewTaskExecutor[string](1)
-		started := map[int]bool{}
-		done := make(chan struct{})
-		te.ExecuteAt("id", func() {
-			started[1] = true
-			te.ExecuteAt("id", func() {
-				started[2] = true
-				vrt.Observe("run", 2)
-				if nowMs() < 50 {
-					vrt.Fail("delivered-early", "re-scheduled task ran at %dms, before its time", nowMs())
-				}
-				if logged("cancel.true") {
-					vrt.Fail("cancel-true-but-ran", "Cancel(id) returned true but the pending task ran afterwards")
-				}
-				if logged("cancel.false") {
-					vrt.Fail("cancel-false-but-pending", "Cancel(id) returned false although a task for id (re-scheduled by the previous callback) was pending: it started after Cancel had returned")
-				}
-			}, at(50))
-			vrt.Close(done)
-		}, at(5))
-		vrt.Recv(done)
-		vrt.Settle() // the first task (wrapper included) has finished; the re-scheduled one is pending unless the clock already reached 50
-		c := te.Cancel("id")
-		if c {
-			vrt.Observe("cancel.true")
-		} else {
-			vrt.Observe("cancel.false")
+	// with one worker and with two (an idle second worker takes the re-scheduled task out of the queue while the
+	// callback that scheduled it is still running)
+	for _, workers := range []int{1, 2} {
+		workers := workers
+		wn := ""
+		if workers > 1 {
+			wn = fmt.Sprintf("/w%d", workers)
 		}
-		te.Shutdown()
-	})
-	add("taskexecutor/third-schedule-leaves-one-pending", 1, false, func() {
-		te := timed.NewTaskExecutor[string](1)
-		started := map[int]bool{}
-		done := make(chan struct{})
-		te.ExecuteAt("id", func() {
+		add("taskexecutor/callback-reschedules-own-id"+wn, 1, false, func() {
+			te := timed.NewTaskExecutor[string](workers)
+			started := map[int]bool{}
+			done := make(chan struct{})
 			te.ExecuteAt("id", func() {
-				started[2] = true
-				if logged("third.ret") {
-					vrt.Fail("two-pending-for-one-id", "scheduling the identifier again did not replace its pending task: the old task started after the new ExecuteAt had returned")
-				}
-			}, at(50))
-			vrt.Close(done)
-		}, at(5))
-		vrt.Recv(done)
-		vrt.Settle()
-		te.ExecuteAt("id", func() { started[3] = true }, at(60))
-		vrt.Observe("third.ret")
-		te.Shutdown()
-		if !started[3] {
-			vrt.Fail("not-delivered", "the last scheduled task did not run")
-		}
-	})
+				started[1] = true
+				te.ExecuteAt("id", func() {
+					started[2] = true
+					vrt.Observe("run", 2)
+					if nowMs() < 50 {
+						vrt.Fail("delivered-early", "re-scheduled task ran at %dms, before its time", nowMs())
+					}
+					if logged("cancel.true") {
+						vrt.Fail("cancel-true-but-ran", "Cancel(id) returned true but the pending task ran afterwards")
+					}
+					if logged("cancel.false") {
+						vrt.Fail("cancel-false-but-pending", "Cancel(id) returned false although a task for id (re-scheduled by the previous callback) was pending: it started after Cancel had returned")
+					}
+				}, at(50))
+				vrt.Close(done)
+			}, at(5))
+			vrt.Recv(done)
+			vrt.Settle() // the first task (wrapper included) has finished; the re-scheduled one is pending unless the clock already reached 50
+			c := te.Cancel("id")
+			if c {
+				vrt.Observe("cancel.true")
+			} else {
+				vrt.Observe("cancel.false")
+			}
+			te.Shutdown()
+		})
+		add("taskexecutor/third-schedule-leaves-one-pending"+wn, 1, false, func() {
+			te := timed.NewTaskExecutor[string](workers)
+			started := map[int]bool{}
+			done := make(chan struct{})
+			te.ExecuteAt("id", func() {
+				te.ExecuteAt("id", func() {
+					started[2] = true
+					if logged("third.ret") {
+						vrt.Fail("two-pending-for-one-id", "scheduling the identifier again did not replace its pending task: the old task started after the new ExecuteAt had returned")
+					}
+				}, at(50))
+				vrt.Close(done)
+			}, at(5))
+			vrt.Recv(done)
+			vrt.Settle()
+			te.ExecuteAt("id", func() { started[3] = true }, at(60))
+			vrt.Observe("third.ret")
+			te.Shutdown()
+			if !started[3] {
+				vrt.Fail("not-delivered", "the last scheduled task did not run")
+			}
+		})
+	}
 	add("taskexecutor/cancel-vs-due", 2, false, func() {
 		te := timed.NewTaskExecutor[string](1)
 		startedStep := 0
